@@ -69,9 +69,11 @@ def handle (op : String) (j : Json) : Option (R Json) :=
       let al := dftAlpha dx[0]! dx[1]! du[0]! du[1]! wl z os
       let out := (propagateDft fs.toList al.1 al.2 sh[0]! sh[1]! ps[0]! ps[1]! os mask).map freezeF
       let canvas := wavefrontField one out (sh[0]! * os) (sh[1]! * os)
+      let mt := dftMeta dx[0]! dx[1]! du[0]! du[1]! wl z os
       pure (okJ [("fields", Json.arr (out.map cfFldToJson).toArray), ("canvas", cfArrToJson canvas),
                  ("alpha", Json.arr #[floatToJson al.1, floatToJson al.2]),
-                 ("pixelscale", Json.arr #[floatToJson (du[0]! / Float.ofInt os), floatToJson (du[1]! / Float.ofInt os)])])
+                 ("wavelength", floatToJson mt.1), ("focal_length", floatToJson mt.2.2),
+                 ("pixelscale", Json.arr #[floatToJson mt.2.1.1, floatToJson mt.2.1.2])])
   | "c02.window" => some do
       let oe ← extOfJson j "out_extent"
       let ps ← getInts j "prop_shape"; let fx ← getInts j "fix"
